@@ -70,10 +70,13 @@ def check_case(spec, recs, mode, cuts, rep="rec"):
         spec = with_qk(spec, "str")
     hn = S.build(spec)
     hr = S.build(spec)
-    for lo, hi in zip(bounds[:-1], bounds[1:]):
+    for pi_, (lo, hi) in enumerate(zip(bounds[:-1], bounds[1:])):
         piece = recs[lo:hi]
         if mode[0] == "array":
             pm = ("array", tuple(mode[1][lo:hi]))
+        elif mode[0] == "scalars":
+            # successive fill.numpy calls with *different* scalar weights (pieces of equal length included)
+            pm = ("scalar", mode[1][pi_ % len(mode[1])])
         else:
             pm = mode
         warg, wrow = wmode_value(pm, len(piece))
@@ -127,7 +130,8 @@ def quantity_bearing(spec):
 
 
 def modes_for(n, tier, arr_ws=(0.0, 1.0, 0.5)):
-    ms = [("none",), ("scalar", 1), ("scalar", 2.0), ("scalar", 0.5), ("scalar", 0.0)]
+    ms = [("none",), ("scalar", 1), ("scalar", 2.0), ("scalar", 0.5), ("scalar", 0.0), ("scalars", (1, 2.0, 0.5)),
+          ("scalars", (2.0, 1))]
     if n > 0:
         for ws in itertools.product(arr_ws, repeat=n):
             ms.append(("array", ws))
